@@ -20,8 +20,9 @@ class MessageHead(packet.Packet):
         # Some payloads are empty and scapy will not construct them
         msgcls = self.guess_payload_class(b'')
         if msgcls is packet.Raw:
-            # An unknown message type is complete as far as can be known
-            pass
+            # An unknown message type is complete as far as can be known,
+            # what follows the type code is left for the next message
+            self.remove_payload()
         elif not self.payload:
             if msgcls.fields_desc:
                 raise formats.VerifyError('Message without payload')
